@@ -1662,23 +1662,38 @@ impl<'a> HistoryIterator<'a> {
 	///
 	/// After this call, inner iterator is at previous user key (or invalid).
 	fn collect_user_key_backward(&mut self) -> Result<bool> {
+		// A user key that has nothing to list (not visible, outside the timestamp
+		// range, erased by a hard delete, only filtered tombstones) is skipped and
+		// the traversal goes on with the previous user key, as the forward
+		// direction does.
+		loop {
+			if let Some(found) = self.collect_one_user_key_backward()? {
+				return Ok(found);
+			}
+		}
+	}
+
+	/// Collects the user key the inner iterator stands on. `Some(true)`: entries are
+	/// buffered; `Some(false)`: traversal is over; `None`: this key lists nothing,
+	/// the inner iterator has moved on to the previous key.
+	fn collect_one_user_key_backward(&mut self) -> Result<Option<bool>> {
 		self.backward_buffer.clear();
 
 		if !self.inner_valid() {
-			return Ok(false);
+			return Ok(Some(false));
 		}
 
 		let user_key = self.inner_key().user_key().to_vec();
 
 		if !self.user_key_within_lower_bound(&user_key) {
-			return Ok(false);
+			return Ok(Some(false));
 		}
 
 		if !self.user_key_within_upper_bound(&user_key) {
 			while self.inner_valid() && self.inner_key().user_key() == user_key.as_slice() {
 				self.inner_prev()?;
 			}
-			return self.collect_user_key_backward();
+			return Ok(None);
 		}
 
 		// Collect all visible versions
@@ -1723,7 +1738,7 @@ impl<'a> HistoryIterator<'a> {
 		}
 
 		if versions.is_empty() {
-			return Ok(false);
+			return Ok(None);
 		}
 
 		// versions are in seq_num ASC order (oldest first, newest last)
@@ -1732,7 +1747,7 @@ impl<'a> HistoryIterator<'a> {
 
 		// Rule 1: HARD_DELETE as latest → skip entire key
 		if latest.is_hard_delete {
-			return Ok(false);
+			return Ok(None);
 		}
 
 		// Rule 2: Find first barrier from newest (search from end to start)
@@ -1779,7 +1794,7 @@ impl<'a> HistoryIterator<'a> {
 		}
 
 		if self.backward_buffer.is_empty() {
-			return Ok(false);
+			return Ok(None);
 		}
 
 		// Truncate buffer to respect limit
@@ -1788,7 +1803,7 @@ impl<'a> HistoryIterator<'a> {
 			if remaining == 0 {
 				self.backward_buffer.clear();
 				self.limit_reached = true;
-				return Ok(false);
+				return Ok(Some(false));
 			}
 			if self.backward_buffer.len() > remaining {
 				self.backward_buffer.truncate(remaining);
@@ -1802,7 +1817,7 @@ impl<'a> HistoryIterator<'a> {
 		// Start yielding from index 0 (oldest in valid range)
 		self.backward_buffer_index = Some(0);
 
-		Ok(true)
+		Ok(Some(true))
 	}
 
 	fn advance_backward(&mut self) -> Result<bool> {
